@@ -10,24 +10,12 @@ Open Scope list_scope.
 
 Definition str_in (s : string) (l : list string) : bool := existsb (String.eqb s) l.
 
-(* ---- (1) primitives ----
-   The classification is an ASSUMPTION about CPython (validated, not proved, by the tripwire runs):
-   - type(o), `is`, issubclass between real type objects of builtin metaclass, callable(o): never run user code;
-   - iteration / len / keys / values / items of an object whose EXACT type is a builtin container (the @guard):
-     the builtin's own slots run, never a subclass override;
-   - inspect.getattr_static: designed not to trigger descriptors / __getattr__;
-   - frame.f_globals / f_locals are real dicts;
-   - isinstance(o, T): falls back to o.__class__ (attribute hook) when type(o) is not a subclass of T;
-   - getattr(o, name, default): runs __getattribute__ / __getattr__ / descriptors of o. *)
-Definition exact_guards : list string := ["list"; "set"; "dict"; "defaultdict"; "tuple"].
-
-(* MonkeyType's own functions and pure helpers: they touch program objects only through the primitives listed for
-   them (get_type / get_dict_type / shrink_types / make_typed_dict work on type objects) *)
-Definition internal_calls : list string :=
-  ["get_type"; "get_dict_type"; "shrink_types"; "make_typed_dict"; "tuple"; "all"; "cast"].
-Definition hook_free_anywhere : list string := ["type"; "issubclass"; "callable"; "inspect.getattr_static"].
-Definition container_protocol : list string :=
-  ["iter(obj)"; "iter(dct)"; "len"; "obj.keys"; "obj.values"; "obj.items"; "dct.keys"; "dct.values"; "dct.items"].
+Fixpoint prefix (p s : string) : bool :=
+  match p, s with
+  | EmptyString, _ => true
+  | String a p', String b s' => Ascii.eqb a b && prefix p' s'
+  | _, _ => false
+  end.
 
 Fixpoint split_at (c : Ascii.ascii) (s : string) : string * option string :=
   match s with
@@ -36,23 +24,83 @@ Fixpoint split_at (c : Ascii.ascii) (s : string) : string * option string :=
                   else let '(h, t) := split_at c r in (String a h, t)
   end.
 
-(* prim = callee[@guard] *)
-Definition hook_free_prim (p : string) : bool :=
-  let '(callee, guard) := split_at "@"%char p in
-  str_in callee hook_free_anywhere
-  || (str_in callee internal_calls)
-  || (str_in callee container_protocol && match guard with Some g => str_in g exact_guards | None => false end).
+(* ---- (1) primitives ----
+   A primitive (harness/extract_effects.py) says WHAT is applied to WHICH object, independently of the names of locals,
+   of the function the statement lives in and of the order of statements:
+     op     a statically resolved callee (builtin:type, import:inspect.getattr_static, func:shrink_types ...), ".m" (call
+            of attribute m of `on`), "()" (call of `on`), "iter" (iteration of `on`), "truth" (`on` as a truth value)
+     on     the origin of the object: param:obj, param:obj.f_globals, call(<callee>), elem(<iterated>), gen(<yielded>) ...
+     arg    attribute name / class given to getattr / isinstance
+     guard  "list" when the operation is only reached under `type(G) is list`, and gon = the origin of that G.
+   The classification is an ASSUMPTION about CPython (validated, not proved, by the tripwire runs):
+   - type(o), `is`, callable(o), issubclass between real type objects (results of type()): never run user code;
+   - iteration / len / keys / values / items of an object whose EXACT type is a builtin container (the guard is on
+     that very object: on = gon), and iteration of the views so obtained: the builtin's own slots run, never a
+     subclass override;
+   - all / tuple / shrink_types consume a generator expression of the tracer itself (gen(...)); iterating such a
+     generator runs tracer code only, whose own primitives are in the list;
+   - the truth value of the result of isinstance / issubclass / callable / all / len is that of a builtin bool / int;
+   - inspect.getattr_static: designed not to trigger descriptors / __getattr__;  typing.cast returns its argument;
+   - frame.f_globals / f_locals (of the frame and of its f_back chain) are real dicts;
+   - isinstance(o, T): falls back to o.__class__ (attribute hook) when type(o) is not a subclass of T;
+   - getattr(o, name, default): runs __getattribute__ / __getattr__ / descriptors of o;
+   - bool(o) of anything else: __bool__ / __len__ of o. *)
+Definition prim := (string * string * string * string * string)%type.
+Definition p_op (p : prim) : string := let '(o, _, _, _, _) := p in o.
+Definition p_on (p : prim) : string := let '(_, o, _, _, _) := p in o.
 
-(* lookup primitives carry the function they occur in:  fn:callee *)
-Definition lookup_callee (p : string) : string :=
-  match split_at ":"%char p with (_, Some c) => c | (c, None) => c end.
-Definition frame_dict_ops : list string :=
-  ["frame.f_globals.get"; "frame.f_locals.get"; "frame.f_globals.values"; "previous_frame.f_locals.values"].
-Definition lookup_internal : list string :=
-  ["_has_code"; "get_func_in_mro"; "get_locals_from_previous_frames"; "get_previous_frames"; "cast"].
-Definition hook_free_lookup (p : string) : bool :=
-  let c := lookup_callee p in
-  str_in c hook_free_anywhere || str_in c frame_dict_ops || str_in c lookup_internal.
+Definition exact_guards : list string := ["list"; "set"; "dict"; "defaultdict"; "tuple"].
+Definition mapping_guards : list string := ["dict"; "defaultdict"].
+Definition view_methods : list string := [".keys"; ".values"; ".items"].
+Definition builtin_results : list string :=
+  ["call(builtin:isinstance)"; "call(builtin:issubclass)"; "call(builtin:callable)"; "call(builtin:all)";
+   "call(builtin:len)"].
+Definition call_of (recv meth : string) : string := String.append "call(" (String.append recv (String.append meth ")")).
+Definition view_of (gon on : string) : bool := existsb (fun m => String.eqb on (call_of gon m)) view_methods.
+Definition real_type (on : string) : bool := String.eqb on "call(builtin:type)".
+
+(* type collection: get_type and everything it walks through (get_dict_type, private helpers) *)
+Definition hook_free_prim (p : prim) : bool :=
+  let '(op, on, _, g, gon) := p in
+  String.eqb op "builtin:type"
+  || (String.eqb op "builtin:issubclass" && real_type on)
+  || (str_in op ["builtin:all"; "builtin:tuple"; "func:shrink_types"] && prefix "gen(" on)
+  || String.eqb op "func:get_type"                       (* the recursion: its own primitives are this very list *)
+  || (String.eqb op "func:make_typed_dict" && String.eqb on "")
+  || (str_in op ["iter"; "builtin:len"] && str_in g exact_guards && String.eqb on gon)
+  || (str_in op view_methods && str_in g mapping_guards && String.eqb on gon)
+  || (String.eqb op "iter" && str_in g mapping_guards && view_of gon on)
+  || (String.eqb op "truth" && str_in on builtin_results).
+
+(* function lookup: get_func and everything it walks through *)
+Definition frames : list string := ["param:frame"; "param:frame.f_back"; "<loop>.f_back"].
+Definition frame_dicts : list string :=
+  flat_map (fun f => [String.append f ".f_globals"; String.append f ".f_locals"]) frames.
+Definition hook_free_lookup (p : prim) : bool :=
+  let '(op, on, _, _, _) := p in
+  str_in op ["builtin:type"; "builtin:callable"; "import:inspect.getattr_static"; "import:typing.cast"]
+  || (String.eqb op "builtin:issubclass" && real_type on)
+  || (str_in op [".get"; ".values"] && str_in on frame_dicts)
+  || (String.eqb op "iter" && (prefix "gen(" on || existsb (fun d => String.eqb on (call_of d ".values")) frame_dicts))
+  || (String.eqb op "truth" && (str_in on builtin_results || String.eqb on "import:monkeytype.compat.cached_property")).
+
+(* The hook-invoking primitives of function lookup that exist today (finding kf_lookup_getattr): the two getattr
+   calls of _has_code (`__code__`, and `__wrapped__` to follow decorators), applied to every kind of lookup candidate,
+   and the three isinstance tests of get_func_in_mro on the class attribute found by inspect.getattr_static. *)
+Definition lookup_candidates : list string :=
+  ["call(builtin:getattr)";                                   (* what a candidate's __wrapped__ led to *)
+   "call(import:inspect.getattr_static).__func__";            (* classmethod / staticmethod found on the first argument / a global class *)
+   "call(import:inspect.getattr_static).func";                (* cached_property *)
+   "call(import:typing.cast)";                                (* the attribute itself, or a property's fget *)
+   "call(param:frame.f_globals.get)";                         (* the module global named like the code object *)
+   "elem(call(<loop>.f_back.f_locals.values))";               (* callable locals of the outer frames *)
+   "elem(call(param:frame.f_back.f_locals.values))";
+   "elem(call(param:frame.f_locals.values))"].
+Definition known_hooking_sites : list prim :=
+  flat_map (fun o => [("builtin:getattr", o, "'__code__'", "", ""); ("builtin:getattr", o, "'__wrapped__'", "", "")])
+           lookup_candidates
+  ++ map (fun c => ("builtin:isinstance", "call(import:inspect.getattr_static)", c, "", ""))
+         ["(builtin:classmethod,builtin:staticmethod)"; "builtin:property"; "import:monkeytype.compat.cached_property"].
 
 (* ---- (2) containment in the profiler callback ---- *)
 Inductive exn := EExceptionSub | EBaseOnly.       (* an Exception subclass | KeyboardInterrupt/SystemExit/GeneratorExit *)
